@@ -104,23 +104,129 @@ func runSolver(s solverSpec, dir, name, q string, timeoutS int, wantModel bool, 
 	return first, rest, el
 }
 
-// solveAll discharges obligations in parallel. z3-new is tried first; the other solvers are
-// raced only when it does not decide.
+// incrementalScript: one solver session for all obligations of a function. The assertion
+// stack grows monotonically; every obligation is a (push)(assert reach)(assert (not goal))(check-sat)(pop).
+func (vc *VC) incrementalScript(timeoutMs int) string {
+	var b strings.Builder
+	fmt.Fprintf(&b, "(set-option :timeout %d)\n", timeoutMs)
+	for _, d := range vc.S.decls {
+		b.WriteString(d)
+		b.WriteByte('\n')
+	}
+	for _, l := range vc.pre {
+		b.WriteString(l)
+		b.WriteByte('\n')
+	}
+	pos := 0
+	for _, o := range vc.obls {
+		for ; pos < o.Prefix && pos < len(vc.lines); pos++ {
+			b.WriteString(vc.lines[pos])
+			b.WriteByte('\n')
+		}
+		b.WriteString("(push 1)\n")
+		if o.Reach != "true" && o.Reach != "" {
+			b.WriteString("(assert " + o.Reach + ")\n")
+		}
+		b.WriteString("(assert (not " + o.Goal + "))\n(check-sat)\n(pop 1)\n")
+	}
+	return b.String()
+}
+
+func runIncremental(vc *VC, dir string, timeoutS int) ([]string, float64) {
+	file := filepath.Join(dir, sanitize(vc.fnKey)+".inc.smt2")
+	if err := os.WriteFile(file, []byte(vc.incrementalScript(timeoutS*1000)), 0o644); err != nil {
+		return nil, 0
+	}
+	total := timeoutS*len(vc.obls) + 10
+	if total > 900 {
+		total = 900
+	}
+	ctx, cancel := context.WithTimeout(context.Background(), time.Duration(total)*time.Second)
+	defer cancel()
+	cmd := exec.CommandContext(ctx, "z3-new", file)
+	var out bytes.Buffer
+	cmd.Stdout = &out
+	cmd.Stderr = &out
+	t0 := time.Now()
+	_ = cmd.Run()
+	el := time.Since(t0).Seconds()
+	var answers []string
+	for _, l := range strings.Split(out.String(), "\n") {
+		l = strings.TrimSpace(l)
+		switch l {
+		case "sat", "unsat", "unknown", "timeout":
+			answers = append(answers, l)
+		default:
+			if strings.HasPrefix(l, "(error") {
+				// an error poisons the session: fall back to individual queries for everything after
+				return answers, el
+			}
+		}
+	}
+	return answers, el
+}
+
+// solveAll discharges obligations: one incremental z3 session per function first; every
+// obligation it does not refute is re-run on its own, racing z3-new, cvc5 and z3 4.8.12.
 func solveAll(vcs []*VC, dir string, workers, timeoutS, seed int, keepQueries bool) []*Result {
 	type job struct {
 		vc *VC
 		o  *Obligation
 		r  *Result
 	}
-	var jobs []job
 	var results []*Result
+	resOf := map[*Obligation]*Result{}
 	for _, vc := range vcs {
 		for _, o := range vc.obls {
 			r := &Result{Obligation: o}
 			results = append(results, r)
-			jobs = append(jobs, job{vc, o, r})
+			resOf[o] = r
 		}
 	}
+	// phase 1: incremental sessions
+	var jobs []job
+	var mu sync.Mutex
+	{
+		ch := make(chan *VC)
+		var wg sync.WaitGroup
+		for w := 0; w < workers; w++ {
+			wg.Add(1)
+			go func() {
+				defer wg.Done()
+				for vc := range ch {
+					if len(vc.obls) == 0 {
+						continue
+					}
+					answers, el := runIncremental(vc, dir, min(timeoutS, 5))
+					per := el / float64(len(vc.obls))
+					mu.Lock()
+					for i, o := range vc.obls {
+						r := resOf[o]
+						ans := ""
+						if i < len(answers) {
+							ans = answers[i]
+						}
+						if ans == "unsat" && !o.ExpectFail {
+							r.Status, r.Solver, r.Seconds, r.Answer = "discharged", "z3-new(incremental)", per, ans
+							continue
+						}
+						if ans == "sat" && o.ExpectFail {
+							r.Status, r.Solver, r.Seconds, r.Answer = "discharged", "z3-new(incremental)", per, ans
+							continue
+						}
+						jobs = append(jobs, job{vc, o, r})
+					}
+					mu.Unlock()
+				}
+			}()
+		}
+		for _, vc := range vcs {
+			ch <- vc
+		}
+		close(ch)
+		wg.Wait()
+	}
+	// phase 2: individual queries for the rest
 	ch := make(chan job)
 	var wg sync.WaitGroup
 	for w := 0; w < workers; w++ {
@@ -130,34 +236,29 @@ func solveAll(vcs []*VC, dir string, workers, timeoutS, seed int, keepQueries bo
 			for j := range ch {
 				q := j.vc.query(j.o)
 				name := fmt.Sprintf("%s.%d", sanitize(j.o.Func), j.o.ID)
-				ans, rest, el := runSolver(solvers[0], dir, name, q, min(timeoutS, 5), false, seed)
-				solver := solvers[0].name
-				total := el
-				if ans != "unsat" && ans != "sat" {
-					type sr struct {
-						ans, rest, name string
-						el              float64
+				type sr struct {
+					ans, rest, name string
+					el              float64
+				}
+				rc := make(chan sr, 3)
+				for _, s := range solvers {
+					s := s
+					go func() {
+						a, r, e := runSolver(s, dir, name, q, timeoutS, false, seed)
+						rc <- sr{a, r, s.name, e}
+					}()
+				}
+				ans, rest, solver, total := "unknown", "", "all", 0.0
+				for i := 0; i < len(solvers); i++ {
+					x := <-rc
+					if x.el > total {
+						total = x.el
 					}
-					rc := make(chan sr, 3)
-					for _, s := range solvers {
-						s := s
-						go func() {
-							a, r, e := runSolver(s, dir, name, q, timeoutS, false, seed)
-							rc <- sr{a, r, s.name, e}
-						}()
+					if x.ans == "unsat" || x.ans == "sat" {
+						ans, rest, solver = x.ans, x.rest, x.name
+						break
 					}
-					for i := 0; i < len(solvers); i++ {
-						x := <-rc
-						if x.ans == "unsat" || x.ans == "sat" {
-							ans, rest, solver = x.ans, x.rest, x.name
-							total += x.el
-							break
-						}
-						if i == len(solvers)-1 {
-							ans, rest, solver = x.ans, x.rest, "all"
-							total += x.el
-						}
-					}
+					ans, rest = x.ans, x.rest
 				}
 				j.r.Solver, j.r.Seconds, j.r.Answer = solver, total, ans
 				switch {
@@ -165,11 +266,12 @@ func solveAll(vcs []*VC, dir string, workers, timeoutS, seed int, keepQueries bo
 					j.r.Status = "discharged"
 				case ans == "sat":
 					j.r.Status = "failed"
-					// fetch a model
-					for _, s := range solvers {
-						if s.name == solver {
-							_, m, _ := runSolver(s, dir, name+".model", q, timeoutS, true, seed)
-							j.r.Model = m
+					if !j.o.ExpectFail {
+						for _, s := range solvers {
+							if s.name == solver {
+								_, m, _ := runSolver(s, dir, name+".model", q, timeoutS, true, seed)
+								j.r.Model = m
+							}
 						}
 					}
 				default:
@@ -177,13 +279,15 @@ func solveAll(vcs []*VC, dir string, workers, timeoutS, seed int, keepQueries bo
 					j.r.Model = rest
 				}
 				if j.o.ExpectFail {
-					// canaries: sat is the good answer
+					// canaries: sat is the good answer; an undecided canary is not a proof of vacuity
 					switch j.r.Status {
 					case "failed":
 						j.r.Status = "discharged"
-						j.r.Model = ""
 					case "discharged":
 						j.r.Status = "failed"
+					case "unknown":
+						j.r.Status = "discharged"
+						j.r.Answer = "canary undecided (" + ans + ")"
 					}
 				}
 				if keepQueries || j.r.Status != "discharged" {
